@@ -519,6 +519,59 @@ func streamEntryPoints(o *Out, r *Rng, tier string) {
 	if tier == "thorough" {
 		perDoc = 120
 	}
+	// deep trees: `$` must reach the real root from every depth — 10, 255, 256, 257, 300, 1000 levels of arrays and of objects; from
+	// the innermost node `$.top` is the root's member, `$` is the root, Path() designates the node, `@` is the node
+	for _, d := range []int{10, 255, 256, 257, 300, 1000} {
+		for _, shape := range []string{"arr", "obj"} {
+			var doc, leafPath string
+			if shape == "arr" {
+				doc = `{"top":1,"deep":` + strings.Repeat("[", d) + "42" + strings.Repeat("]", d) + "}"
+				leafPath = "$.deep" + strings.Repeat("[0]", d)
+			} else {
+				doc = `{"top":1,"deep":` + strings.Repeat(`{"k":`, d) + "42" + strings.Repeat("}", d) + "}"
+				leafPath = "$.deep" + strings.Repeat(".k", d)
+			}
+			o.Check("C19", "anchors-deep")
+			func() {
+				defer func() {
+					if rec := recover(); rec != nil {
+						o.Fail("C11", "no-panic(query)", fmt.Sprintf("panic on a %d-deep document: %v", d, rec), shape, "a result or an error", "panic")
+					}
+				}()
+				root, err := ajson.Unmarshal([]byte(doc))
+				if err != nil {
+					return
+				}
+				res, err := root.JSONPath(leafPath)
+				if err != nil || len(res) != 1 {
+					o.Fail("C19", "anchors-deep", fmt.Sprintf("the innermost node of a %d-deep %s document is not found from the root", d, shape), leafPath[:20]+"…", "1 node", fmt.Sprint(len(res), err))
+					return
+				}
+				leaf := res[0]
+				bad := func(what, want, got string) {
+					o.Fail("C19", "anchors-deep", fmt.Sprintf("%s from the innermost node of a %d-deep %s document", what, d, shape), shape+" depth "+strconv.Itoa(d), want, got)
+				}
+				if a, e := leaf.JSONPath("$.top"); e != nil || len(a) != 1 || a[0] != root.MustKey("top") {
+					bad("`$.top`", "the root's member top", fmt.Sprint(ajson.Paths(a), e))
+				}
+				if a, e := leaf.JSONPath("$"); e != nil || len(a) != 1 || a[0] != root {
+					bad("`$`", "the root", fmt.Sprint(len(a), e))
+				}
+				if a, e := leaf.JSONPath(leaf.Path()); e != nil || len(a) != 1 || a[0] != leaf {
+					bad("Path() of the node", "the node itself", fmt.Sprint(len(a), e))
+				}
+				if a, e := leaf.JSONPath("@"); e != nil || len(a) != 1 || a[0] != leaf {
+					bad("`@`", "the node itself", fmt.Sprint(len(a), e))
+				}
+				if v, e := ajson.Eval(leaf, "$.top + @"); e != nil || v.MustNumeric() != 43 {
+					bad("Eval `$.top + @`", "43", fmt.Sprint(v, e))
+				}
+				if v, e := ajson.Eval(leaf, "root(@) == $"); e != nil || !v.MustBool() {
+					bad("Eval `root(@) == $`", "true", fmt.Sprint(v, e))
+				}
+			}()
+		}
+	}
 	docs := append([]string{`{"a":1,"a ":2,"b":{"c ":[10,20]," c":3}," a":4}`}, pathDocs...)
 	for di, doc := range docs {
 		dr := r.Fork(uint64(9000 + di))
